@@ -253,7 +253,7 @@ CLAIMED = {
         "DESIGN.md §6 C15",
     ),
     "C16": (
-        "Lean 4 iff-theorems for every validator at its documented bound, pipeline theorem, and an all-cut-points theorem for the dynamic list refresh as a sequence of atomic set operations + differential correspondence with the real validators, pipeline and ListBuilder.run_once",
+        "Lean 4 iff-theorems for every validator at its documented bound (the validators' model proved equal to a per-run translation of validators.py), pipeline theorem, and an all-cut-points theorem for the dynamic list refresh as a sequence of atomic set operations + differential correspondence with the real validators, pipeline and ListBuilder.run_once",
         "Proof: NostrRelay/Props/C16.lean proves one iff per validator (size, age both ways, kinds, allow/deny lists, PoW "
         "bits, p-tag limit for kinds 1/7, service-event author, dynamic lists), that the pipeline admits iff every "
         "configured validator admits, that with the add-then-intersect refresh every state observable between the set "
@@ -266,7 +266,10 @@ CLAIMED = {
         "exactly kind-0 events that do not mention nip05 under `enabled` (C16_nip05_rejects_iff), never switches an unenforced "
         "allow list on, never shrinks an enforced one, adds only the author of the metadata event at hand, who is then admitted "
         "unless denied (the documented temporary admission of a candidate); tied to the real function (the optional nostr_bot "
-        "dependency is replaced by a name-only stand-in). Concurrent submissions claiming one id and configurations whose "
+        "dependency is replaced by a name-only stand-in). The eight policy validators of validators.py are moreover translated "
+        "from the current source on every run (harness/lib/translate_validators.py, statement by statement) and Lean proves each "
+        "translated function equal to the model's for every configuration, clock value and event (tie_is_* theorems) — for them "
+        "the tie between model and code is a theorem, not a sample. Concurrent submissions claiming one id and configurations whose "
         "validators cannot be resolved are part of the search.",
         "Partial: atomicity of a single set method under the GIL is trusted. The empty-query-result case (static whitelist "
         "dropped) was repaired by a fix: commit.",
